@@ -56,6 +56,45 @@ CLAIMED = {
             "Under a fault only a prefix is required (read-ahead decides where the fault surfaces); raise mode may stop "
             "at an ordinary rejection in front of the fault.",
             "DESIGN.md section 5, C06"),
+    "C07": ("exploration",
+            "deterministic simulation: seeded tables with garbage header rows read through every API that takes the "
+            "limit (incl. main --until) plus a bounded boundary sweep; container fault placed right behind the limit; "
+            "reference reader model with header and limit",
+            "Seeded search plus an exhaustive sweep of the named boundary set (header 0-3 x one bad row at every position x "
+            "every limit x 6 API flavours); evidence, not proof beyond the swept sub-space.",
+            "CIDs here carry no end-of-data check; the command line runs in-process over simulated storage.",
+            "DESIGN.md section 5, C07"),
+    "C12": ("exploration",
+            "deterministic simulation: write -> simulated storage (short writes) -> read (short reads) pipeline over "
+            "every configuration the real loader accepts; conservation oracle (rows out = rows in, exactly once, in order)",
+            "Seeded search over configuration x table x target x source x chunk schedule plus a sweep offering all 4480 "
+            "configurations to the loader; evidence, not proof.",
+            "The domain is what DataFormat.set_property/validate accepts; rows have >= 1 column.",
+            "DESIGN.md section 5, C12"),
+    "C13": ("exploration",
+            "deterministic simulation with fault injection: well-formed fixed files with one character deleted / inserted / "
+            "replaced, random strings, three ways in (StringIO, chunked stream, path), a prior reader abandoned in the same "
+            "process; RefFixed enumerates all parses as oracle; bounded sweep of all short strings",
+            "Seeded search plus exhaustive sweep of all strings up to length 4 (quick) / 7 (thorough) over {a,b,CR,LF} x 39 "
+            "width lists x 5 settings; evidence, not proof beyond the swept sub-space.",
+            "Under 'any' an input whose maximal-munch parse is invalid but which has another parse may be accepted or "
+            "rejected.",
+            "DESIGN.md section 5, C13"),
+    "C14": ("exploration",
+            "deterministic simulation: seeded histories of write_row / write_rows calls (accepted, rejected, duplicate rows) "
+            "on a CID-bound Writer over StringIO or simulated storage with short writes and a seamed os.linesep; "
+            "per-op conservation invariant and read-back under a fresh Cid",
+            "Seeded search with invariants after every operation and a final read-back; evidence, not proof.",
+            "Acceptance is modelled on the values as passed; header rows are emitted unvalidated by design.",
+            "DESIGN.md section 5, C14"),
+    "C20": ("exploration",
+            "deterministic simulation: recording plug-in classes resolved through real CIDs; seeded histories of reader / "
+            "writer runs (modes, limit, abandonment, double close, another Cid used before in the same process); the "
+            "recorded call history must equal the sequence predicted by a reference model of the protocol",
+            "Seeded search over histories with a trace-equality oracle; evidence, not proof.",
+            "Order of reset / cleanup among checks is free; after a failing end verdict the remaining checks need not be "
+            "asked; verdicts for empty cells are taken from the real field.",
+            "DESIGN.md section 5, C20"),
 }
 
 PENDING = {key: "designed as a simulation target in DESIGN.md section 5; its check is still under construction and is "
